@@ -11,7 +11,7 @@
    numbers, [mem x q] membership in a range set (proofs/RangeSetP.v). *)
 From AQ Require Import lib.Base model.Codec model.Varint model.RangeSet model.AckFrame gen.C12Consts model.AckQueue
   proofs.RangeSetP proofs.AckQueueP proofs.AckQueueP2 proofs.AckQueueP3.
-From AQ Require Import gen.C12RecvOrder model.RecvAck proofs.RecvAckP.
+From AQ Require Import gen.C12RecvOrder model.RecvAck proofs.RecvAckP proofs.RecvAckT proofs.RecvAckD.
 
 (* ack_sound, queue: the ack_queue only ever holds recorded packet numbers *)
 Theorem ack_sound_queue : forall a s, reach a s -> forall x, mem x (aq s) -> In x (rcvd s).
@@ -266,3 +266,131 @@ Theorem recv_packet_refines : forall c i pn fs t d, fx_plain fs = true ->
   end.
 Proof. exact recv_packet_refines_l. Qed.
 Print Assumptions recv_packet_refines.
+
+(* ---- timeliness on the COMPOSED model (proofs/RecvAckT.v).
+   [creach_t dmax c now]: c is reachable from a fresh connection by a TIMED run of the connection-level operations of
+   model/RecvAck.v -- packets of any space with any decryption verdict, any packet number in [0, 2^62) and any payload effects
+   (acknowledgements of our ACK frames pruning the queue in the middle of the payload, handshake completion, discards of any
+   space, CONNECTION_CLOSE, connection errors), sends of any space with ANY room / pacer verdict, completions, discards,
+   close(), _initialize() -- whose clock never goes back (now = time of the last call), every acknowledgement delay
+   d = fl(now + _ack_delay) - now is in [0, dmax], the encoded delay is encodable, and at most MAX_ACK_RANGES ranges are
+   queued at a send (the range-count premise of reach_t; beyond it: finding F2, ack_timely_cap_refuted).
+   [crun_t dmax c now ops]: the same premises for a continuation; [acked_in i L c ops]: one of the sends of [ops] wrote an
+   ACK frame of space i that covers L. *)
+
+(* how a packet becomes owed: decrypted on a live connection, payload run to its end without error -- whatever it
+   acknowledges, completes or discards on the way --, ack-eliciting, above every packet number recorded in its space;
+   application space: the handshake is complete when the payload ends (completion INSIDE the payload counts) *)
+Theorem owed_recorded_composed : forall c i pn fs t d c2, creach c -> closing (spc c i) = false ->
+  payload_received (pre_payload c i pn t) i fs = Ok (c2, true, false) ->
+  closing (spc c2 i) = false -> disc (spc c2 i) = false -> lrp (spc c i) < pn ->
+  (i = SApp -> complete (spc c2 i) = true) -> app (spc c i) = is_app i ->
+  exists c', recv_packet c i (VPlain pn false) fs t d = Ok c' /\ In (pn, t) (owed (spc c' i)) /\ lrp (spc c' i) = pn.
+Proof. exact owed_recorded_composed_l. Qed.
+Print Assumptions owed_recorded_composed.
+
+(* it leaves the list only through an ACK frame of its space that covers it, or when _initialize() replaces the spaces:
+   ALL operations, NO premise -- neither an in-payload prune of the same or of a later packet, nor a connection error,
+   nor a completion, nor a discard *)
+Theorem owed_leaves_only_composed : forall c o i x, creach c -> In x (owed (spc c i)) ->
+  ~ In x (owed (spc (snd (cstep c o)) i)) ->
+  o = CReinit \/
+  exists t delay room blocked bytes q,
+    o = CSend i t delay room blocked /\ fst (cstep c o) = CSent (SFrame bytes q) /\ mem (fst x) q.
+Proof. exact owed_leaves_only_composed_l. Qed.
+Print Assumptions owed_leaves_only_composed.
+
+(* the timer: in every state of a timed run, in every space that still exists, an owed packet is still queued and ack_at
+   is armed no later than arrival + dmax.  No premise `closing = false`: an error in a later packet does not remove it *)
+Theorem ack_timely_pending_composed : forall dmax c now i L t, creach_t dmax c now -> disc (spc c i) = false ->
+  In (L, t) (owed (spc c i)) -> mem L (aq (spc c i)) /\ exists x, ack_at (spc c i) = Some x /\ x <= t + dmax.
+Proof. exact ack_timely_pending_composed_l. Qed.
+Print Assumptions ack_timely_pending_composed.
+
+(* the due send: application space u >= ack_at (u > ack_at, or an open pacer, or a tree that skips pacing when
+   ack_at <= now); Initial / Handshake: any send that starts a packet of the space, at any time; room for the frame *)
+Theorem ack_due_send_composed : forall dmax c now i L t0 x u delay room blocked, creach_t dmax c now ->
+  closing (spc c i) = false -> disc (spc c i) = false -> In (L, t0) (owed (spc c i)) -> ack_at (spc c i) = Some x ->
+  now <= u -> Zlen (aq (spc c i)) <= MAX_ACK_RANGES -> ack_capacity (aq (spc c i)) <= room -> 0 <= delay < 2 ^ 62 ->
+  (i = SApp -> x <= u /\ (x < u \/ blocked = false \/ PACING_LE = true)) ->
+  exists bytes c', cstep c (CSend i u delay room blocked) = (CSent (SFrame bytes (aq (spc c i))), c') /\
+    mem L (aq (spc c i)) /\ x <= t0 + dmax /\ owed (spc c' i) = [] /\ ack_at (spc c' i) = None.
+Proof. exact ack_due_send_composed_l. Qed.
+Print Assumptions ack_due_send_composed.
+
+(* a discarded space owes nothing (no timer, no packet of the space can be started); a closing connection writes no ACK *)
+Theorem discarded_owes_nothing : forall c i, creach c -> disc (spc c i) = true ->
+  ack_at (spc c i) = None /\
+  forall t delay room blocked, exists w, fst (send (spc c i) t delay room blocked) = SNothing w.
+Proof. exact discarded_owes_nothing_l. Qed.
+Print Assumptions discarded_owes_nothing.
+
+Theorem closing_sends_nothing : forall c i t delay room blocked, closing (spc c i) = true ->
+  fst (send (spc c i) t delay room blocked) = SNothing 0.
+Proof. exact closing_sends_nothing_l. Qed.
+Print Assumptions closing_sends_nothing.
+
+(* ack_timely_composed -- the timeliness sentence on whole runs.  (L, t) owed in space i in some state of a timed run;
+   for EVERY timed continuation [ops]: one of its sends wrote an ACK frame of space i covering L; or _initialize() started
+   a new connection attempt; or space i was discarded meanwhile (discarded_owes_nothing); or L is STILL queued with
+   ack_at = x <= t + dmax, and -- unless the connection is closing (closing_sends_nothing) -- the next send of space i
+   with room for the frame writes an ACK frame built from the whole queue (so covering L): application space, when it
+   comes at u >= x (u > x, or open pacer, or PACING_LE) -- at u = x <= t + dmax when the caller fires the timer when
+   asked (get_timer_le) --; Initial / Handshake, whenever it comes *)
+Theorem ack_timely_composed : forall dmax c now i L t ops u delay room blocked, creach_t dmax c now ->
+  In (L, t) (owed (spc c i)) -> crun_t dmax c now ops ->
+  let c' := crun c ops in
+  acked_in i L c ops \/ In CReinit ops \/ disc (spc c' i) = true \/
+  (mem L (aq (spc c' i)) /\ exists x, ack_at (spc c' i) = Some x /\ x <= t + dmax /\
+     (closing (spc c' i) = false -> clock_after now ops <= u -> Zlen (aq (spc c' i)) <= MAX_ACK_RANGES ->
+      ack_capacity (aq (spc c' i)) <= room -> 0 <= delay < 2 ^ 62 ->
+      (i = SApp -> x <= u /\ (x < u \/ blocked = false \/ PACING_LE = true)) ->
+      exists bytes c'', cstep c' (CSend i u delay room blocked) = (CSent (SFrame bytes (aq (spc c' i))), c'') /\
+        owed (spc c'' i) = [] /\ ack_at (spc c'' i) = None)).
+Proof. exact ack_timely_composed_l. Qed.
+Print Assumptions ack_timely_composed.
+
+(* ---- the driver discipline on the COMPOSED model (proofs/RecvAckD.v): ack_timely_cap lifted.
+   [creach_d dmax c now hot]: timed runs as [creach_t] but with NO premise on the number of queued ranges; instead, per
+   space, the sans-IO discipline: [hot i] = a packet of space i was handed to the connection since the last send of space i
+   whose packet had room for the ACK frame (ack_capacity (cap_ranges queue) <= room, any pacer verdict); a packet of space
+   i may be handed over only while space i is cold.  Between a packet and "its" send anything else may happen: packets and
+   sends of the other spaces (coalesced datagrams), sends of space i without room, completions, discards, close().
+   As for ack_timely_cap the statements are about a tree with docs/C12-fix-2.patch (flags probed from the source). *)
+
+(* an owed packet is never forgotten by the cap: still queued, timer armed within the bound, among the ranges the cap
+   keeps; in a cold space fewer than MAX_ACK_RANGES ranges are queued *)
+Theorem ack_timely_cap_composed : forall dmax c now h i L t, CAP_ACK_NOW = true -> PACING_LE = true ->
+  creach_d dmax c now h -> disc (spc c i) = false -> In (L, t) (owed (spc c i)) ->
+  mem L (aq (spc c i)) /\ (exists x, ack_at (spc c i) = Some x /\ x <= t + dmax) /\
+  (closing (spc c i) = false -> mem L (cap_ranges (aq (spc c i))) /\
+                                (h i = false -> Zlen (aq (spc c i)) <= MAX_ACK_RANGES - 1)).
+Proof. exact ack_timely_cap_composed_l. Qed.
+Print Assumptions ack_timely_cap_composed.
+
+(* the due send (application space: u >= ack_at, ANY pacer verdict; Initial / Handshake: any time) with room for the capped
+   queue writes a frame that covers every owed packet *)
+Theorem ack_timely_cap_send_composed : forall dmax c now h i L t0 x u delay room blocked,
+  CAP_ACK_NOW = true -> PACING_LE = true ->
+  creach_d dmax c now h -> closing (spc c i) = false -> disc (spc c i) = false -> In (L, t0) (owed (spc c i)) ->
+  ack_at (spc c i) = Some x -> now <= u -> (i = SApp -> x <= u) ->
+  ack_capacity (cap_ranges (aq (spc c i))) <= room -> 0 <= delay < 2 ^ 62 ->
+  exists bytes c', cstep c (CSend i u delay room blocked) = (CSent (SFrame bytes (cap_ranges (aq (spc c i)))), c') /\
+    mem L (cap_ranges (aq (spc c i))) /\ x <= t0 + dmax /\ owed (spc c' i) = [] /\ ack_at (spc c' i) = None.
+Proof. exact ack_timely_cap_send_composed_l. Qed.
+Print Assumptions ack_timely_cap_send_composed.
+
+(* the sentence on whole disciplined runs: ack_timely_composed without the range-count premise and without the pacer
+   premise *)
+Theorem ack_timely_cap_run_composed : forall dmax c now h i L t ops u delay room blocked,
+  CAP_ACK_NOW = true -> PACING_LE = true ->
+  creach_d dmax c now h -> In (L, t) (owed (spc c i)) -> crun_d dmax c now h ops ->
+  let c' := crun c ops in
+  acked_in i L c ops \/ In CReinit ops \/ disc (spc c' i) = true \/
+  (mem L (aq (spc c' i)) /\ exists x, ack_at (spc c' i) = Some x /\ x <= t + dmax /\
+     (closing (spc c' i) = false -> clock_after now ops <= u -> ack_capacity (cap_ranges (aq (spc c' i))) <= room ->
+      0 <= delay < 2 ^ 62 -> (i = SApp -> x <= u) ->
+      exists bytes c'', cstep c' (CSend i u delay room blocked) = (CSent (SFrame bytes (cap_ranges (aq (spc c' i)))), c'') /\
+        mem L (cap_ranges (aq (spc c' i))) /\ owed (spc c'' i) = [] /\ ack_at (spc c'' i) = None)).
+Proof. exact ack_timely_cap_run_composed_l. Qed.
+Print Assumptions ack_timely_cap_run_composed.
